@@ -160,7 +160,7 @@ def codec_queries(prop, tier):
     # run-length boundaries of the tagged run-length varint
     for (n, repl) in (((242, 241), (257, 256)) if q else ((241, 240), (242, 241), (256, 255), (257, 256), (242, 1))):
         for hdr in ((0,) if q else (0, 1)):
-            if prop in (2, 3, 16):
+            if prop == 3:   # size predictor vs bytes written; the decode / metadata sections do not finish at these lengths
                 qs.append(rle_repl_q(prop, n, repl, hdr))
     # ---- dict
     if prop in (2, 3, 13):
